@@ -20,6 +20,7 @@ RULE = ("grammar-generated task programs (profiles %s; trees and DAGs of tasks, 
 LEAN_MODULES = LEAN_MODULES + ctxhist.LEAN_MODULES
 THEOREMS = THEOREMS + ["AsynqModel.Contexts." + n for n in ctxhist.THEOREMS]
 RULE += "; plus " + ctxhist.RULE
+RULE += "; plus family afterthrow (overrides entered after a task caught a thrown-in error), judged by direct expectation (Drv/Families6c.lean)"
 TRUSTED = cc.TRUSTED_CORE + ctxhist.TRUSTED
 ASSUMPTIONS = cc.ASSUMPTIONS_CORE + ctxhist.ASSUMPTIONS
 
@@ -29,7 +30,7 @@ def extra(tier, rng):
     return [coregen.override_family(rng) for _ in range(150 if tier == "quick" else 3000)] + \
         [coregen.shared_override_family(rng) for _ in range(100 if tier == "quick" else 2000)] + \
         ctxhist.cases(tier, rng, focus="ov") + cc.corefam4.callctx_cases(tier, cc.fork(rng, "callctx")) + \
-        cc.guard_ctx_cases(tier, cc.fork(rng, "guard"))
+        cc.guard_ctx_cases(tier, cc.fork(rng, "guard")) + cc.corefam6c.afterthrow_cases(tier, cc.fork(rng, "afterthrow"))
 
 
 def plan(tier, seed):
